@@ -245,14 +245,39 @@ struct Dumper {
     return "[\"x\"," + jstr(OS.str()) + "]";
   }
 
-  std::string constJson(const Constant *C, unsigned Depth = 0) {
+  // strip typedef/const/volatile to the composite type of a global's debug-info type
+  static DICompositeType *diComposite(DIType *T) {
+    unsigned G = 0;
+    while (T && G++ < 16) {
+      if (auto *C = dyn_cast<DICompositeType>(T)) return C;
+      if (auto *D = dyn_cast<DIDerivedType>(T)) { T = D->getBaseType(); continue; }
+      break;
+    }
+    return nullptr;
+  }
+
+  std::string constJson(const Constant *C, unsigned Depth = 0, DICompositeType *Hint = nullptr) {
     if (Depth > 6) return "[\"deep\"]";
     if (auto *CS = dyn_cast<ConstantStruct>(C)) {
       StructType *ST = CS->getType();
-      std::string O = "[\"struct\"," + jstr(ST->hasName() ? baseStructName(ST->getName()) : "literal") + ",[";
+      bool UseHint = Hint && !ST->hasName() && Hint->getTag() == dwarf::DW_TAG_structure_type;
+      std::string SN = ST->hasName() ? baseStructName(ST->getName()) : (UseHint ? Hint->getName().str() : "literal");
+      std::string O = "[\"struct\"," + jstr(SN) + ",[";
       for (unsigned i = 0; i < CS->getNumOperands(); i++) {
         if (i) O += ",";
-        O += "[" + jstr(fieldName(ST, i)) + "," + constJson(CS->getOperand(i), Depth + 1) + "]";
+        std::string FN = fieldName(ST, i);
+        DICompositeType *Sub = nullptr;
+        if (UseHint || (Hint && ST->hasName())) {
+          uint64_t Off = DL.getStructLayout(ST)->getElementOffset(i);
+          for (auto *E : Hint->getElements())
+            if (auto *D = dyn_cast<DIDerivedType>(E))
+              if (D->getTag() == dwarf::DW_TAG_member && D->getOffsetInBits() == Off * 8) {
+                if (UseHint) FN = SN + "." + (D->getName().empty() ? "<anon>" : D->getName().str());
+                Sub = diComposite(D->getBaseType());
+                break;
+              }
+        }
+        O += "[" + jstr(FN) + "," + constJson(CS->getOperand(i), Depth + 1, Sub) + "]";
       }
       return O + "]]";
     }
@@ -589,7 +614,13 @@ struct Dumper {
       if (G.isThreadLocal()) OS << ",\"tls\":1";
       if (G.isConstant()) OS << ",\"const\":1";
       OS << ",\"ty\":" << jstr(tystr(G.getValueType()));
-      if (G.hasInitializer()) OS << ",\"init\":" << constJson(G.getInitializer());
+      if (G.hasInitializer()) {
+        DICompositeType *Hint = nullptr;
+        SmallVector<DIGlobalVariableExpression *, 1> GVEs;
+        G.getDebugInfo(GVEs);
+        if (!GVEs.empty()) Hint = diComposite(GVEs[0]->getVariable()->getType());
+        OS << ",\"init\":" << constJson(G.getInitializer(), 0, Hint);
+      }
       OS << "}";
     }
     OS << "],\n\"aliases\":[";
